@@ -1565,6 +1565,49 @@ def collect_congr() -> List[Tuple[str, List[str], List[str]]]:
     return out
 
 
+def collect_pred_congr() -> List[Tuple[str, bool, bool, List[str], List[str]]]:
+    """per Predicate / Processor class: (name, compares exactly its fields, i.e. a `@dataclass` with generated `__eq__` and
+    no `__eq__` / `__hash__` of its own; no other method than `__call__` / `__init__` / `__post_init__` stores to self;
+    the `self.<attr>` its methods read; its dataclass fields)"""
+    found = []
+    for fn in sorted(os.listdir(PKG)):
+        if not fn.endswith(".py"):
+            continue
+        tree = ast.parse(open(os.path.join(PKG, fn)).read())
+        for node in tree.body:
+            if not isinstance(node, ast.ClassDef):
+                continue
+            bases = base_names(node)
+            if "Predicate" not in bases and "Processor" not in bases and "PredicateAsync" not in bases:
+                continue
+            decs = [ast.unparse(d) for d in node.decorator_list]
+            decs = [d[len("dataclasses."):] if d.startswith("dataclasses.") else d for d in decs]
+            generated_eq = any(d == "dataclass" or (d.startswith("dataclass(") and "eq=False" not in d.replace(" ", ""))
+                               for d in decs)
+            own = [it.name for it in node.body if isinstance(it, (ast.FunctionDef, ast.AsyncFunctionDef))]
+            eq_ok = generated_eq and "__eq__" not in own and "__hash__" not in own and "__ne__" not in own
+            fields = [it.target.id for it in node.body
+                      if isinstance(it, ast.AnnAssign) and isinstance(it.target, ast.Name)
+                      and not ast.unparse(it.annotation).startswith("ClassVar")]
+            classvars = [it.target.id for it in node.body
+                         if isinstance(it, ast.AnnAssign) and isinstance(it.target, ast.Name)
+                         and ast.unparse(it.annotation).startswith("ClassVar")]
+            classvars += [t.id for it in node.body if isinstance(it, ast.Assign) for t in it.targets if isinstance(t, ast.Name)]
+            reads = set()
+            stores_ok = True
+            for it in node.body:
+                if isinstance(it, (ast.FunctionDef, ast.AsyncFunctionDef)):
+                    reads |= {a for a in _self_attrs_read(it) if a not in classvars and not a.startswith("__")}
+                    for sub in ast.walk(it):
+                        if isinstance(sub, ast.Attribute) and isinstance(sub.ctx, (ast.Store, ast.Del)) \
+                                and isinstance(sub.value, ast.Name) and sub.value.id == "self" \
+                                and it.name not in ("__init__", "__post_init__"):
+                            stores_ok = False
+            found.append((node.name, eq_ok, stores_ok, sorted(reads), fields))
+    found.sort()
+    return found
+
+
 def render_congr() -> str:
     rows = collect_congr()
     lines = ["/- GENERATED by harness/pysrc.py from the current source of /repo/koda_validate — do not edit -/", "",
@@ -1573,6 +1616,13 @@ def render_congr() -> str:
              "    read depends on, and those that what `__eq__` compares depends on -/",
              "def congr : List (String × List String × List String) := ["]
     lines.append(",\n".join(f"  ({lstr(c)}, [{', '.join(lstr(x) for x in r)}], [{', '.join(lstr(x) for x in k)}])" for c, r, k in rows))
+    lines += ["]", "",
+              "/-- per predicate / processor class: `==` is the generated dataclass equality over exactly its fields; no method",
+              "    but the constructor stores to `self`; the attributes its methods read; its fields -/",
+              "def predCongr : List (String × Bool × Bool × List String × List String) := ["]
+    lines.append(",\n".join(f"  ({lstr(c)}, {'true' if e else 'false'}, {'true' if st else 'false'}, "
+                            f"[{', '.join(lstr(x) for x in r)}], [{', '.join(lstr(x) for x in f)}])"
+                            for c, e, st, r, f in collect_pred_congr()))
     lines += ["]", "", "end Koda.Src", ""]
     return "\n".join(lines)
 
